@@ -113,9 +113,15 @@ func genC05(rt *rapid.T) C05Case {
 	c.Capacity = rapid.IntRange(1, 6).Draw(rt, "capacity")
 	c.TTL = rapid.SampledFrom([]int64{0, int64(30 * time.Second), int64(5 * time.Minute)}).Draw(rt, "ttl")
 	kinds := swarmKinds(rt, []string{"search", "search", "search", "search", "search", "search", "invalidate", "enable", "disable", "cleanup", "update", "loadmon", "advance", "stats", "mutate", "mutate"}, "search")
+	if len(c.DBs) > 1 && rapid.IntRange(0, 3).Draw(rt, "twowrappers") == 0 {
+		kinds = append(kinds, "other", "other") // a second caching wrapper, over another database, in the same process
+	}
 	opGen := rapid.Custom(func(rt *rapid.T) C05Op {
 		op := C05Op{Kind: rapid.SampledFrom(kinds).Draw(rt, "kind")}
 		switch op.Kind {
+		case "other":
+			op.Q = rapid.IntRange(0, len(c.Queries)-1).Draw(rt, "q")
+			op.O = rapid.IntRange(0, len(c.Options)-1).Draw(rt, "o")
 		case "search":
 			op.Entry = rapid.IntRange(0, len(c05Entries)-1).Draw(rt, "entry")
 			op.Q = rapid.IntRange(0, len(c.Queries)-1).Draw(rt, "q")
@@ -239,6 +245,7 @@ func runC05Body(c C05Case) *Outcome {
 	for i := range opts {
 		live[i] = opts[i].toDB()
 	}
+	var other *database.CachedDatabase
 	var reqs []c05Req
 	hits, deltas, replaced, evictions := 0, 0, 0, 0
 	seenOpts := map[string][]Opts{} // normalised query -> option sets used
@@ -378,6 +385,25 @@ func runC05Body(c C05Case) *Outcome {
 			o.SimNanos += op.Adv
 			log = append(log, fmt.Sprintf("adv(%d)", op.Adv))
 			beh = append(beh, "a")
+		case "other":
+			// the same request through a second wrapper over another database: each wrapper answers for its own
+			if other == nil {
+				disk.WriteRaw("/data/other.yml", yamlOf(c.DBs[1]), 0o644)
+				odb, oerr := database.LoadDatabase("/data/other.yml")
+				if oerr != nil {
+					continue
+				}
+				other = database.NewCachedDatabase(odb)
+			}
+			q := c.Queries[op.Q%len(c.Queries)]
+			so := opts[op.O%len(opts)].toDB()
+			g := resOf(other.SearchWithOptionsAndCache(q, so))
+			f := resOf(other.Database.SearchUniversal(q, so))
+			log = append(log, fmt.Sprintf("second wrapper: SearchWithOptionsAndCache(%q,%+v)=%s", q, opts[op.O%len(opts)], resString(g)))
+			if !resEqual(g, f) {
+				return fail("other-wrapper", "step %d: a second caching wrapper over another database returned %s for (%q, %+v); the uncached engine of ITS database returns %s", i, resString(g), q, opts[op.O%len(opts)], resString(f))
+			}
+			beh = append(beh, "o")
 		case "stats":
 			s := mdb.GetCacheStats()["search"]
 			log = append(log, fmt.Sprintf("stats=%d/%d", s.Size, s.Capacity))
